@@ -102,10 +102,11 @@ Proof. exact names_refuted. Qed.
 Print Assumptions C14_names_refuted.
 
 (* The executable monitor run on implementation outputs is implied by the theorems: on the model's own outputs it passes. *)
-Theorem C14_monitor_sound : forall en e0 algo suffix asgs,
+Theorem C14_monitor_sound : forall en e0 algo suffix incfg asgs,
   suffix <> "" -> forallb is_alnum (chars suffix) = true -> (String.length suffix <= 22)%nat ->
+  (dns1123_label algo && (String.length algo <=? 22)%nat)%bool = true \/ incfg = true ->
   (admitted en e0 -> runnable en (set_default e0) /\ Forall (assignment_for (set_default e0)) asgs) ->
-  monitor true (set_default e0) (validate en (set_default e0)) (Some (model_names (set_default e0) algo suffix))
+  monitor true (set_default e0) (validate en (set_default e0)) (Some (model_names (set_default e0) algo suffix incfg))
           (map (model_run en (set_default e0)) asgs) = true.
 Proof. exact monitor_model. Qed.
 Print Assumptions C14_monitor_sound.
